@@ -260,11 +260,16 @@ def run_one(ck, prog):
         ck.ob("C17.5", "queues-not-public", not pub, detail=f"public queue fields of IoUring: {pub}")
 
 
-def shape_masked_shift(e, prov, field, loader=None):
-    """(X & ring_mask) << shift   (cast to usize allowed)"""
+def shape_masked_shift(e, prov, field, loader=None, flag=None):
+    """(X & ring_mask) << shift   (cast to usize allowed); with `flag`, the shift must be decided by that set-up flag (the submission
+    entries are doubled by SQE128, the completion entries by CQE32 - independently of each other)"""
     e = strip_casts(e)
     if not (isinstance(e, tuple) and e[0] == "bin" and e[1] in ("Shl", "ShlUnchecked")):
         return False
+    if flag is not None:
+        named = {str(z[2]).rsplit("::", 1)[-1] for z in walk_deep(e[3], prov) if z[0] == "const" and z[2] and "IORING_SETUP_" in str(z[2])}
+        if named != {flag}:
+            return False
     inner = strip_casts(e[2])
     if not (isinstance(inner, tuple) and inner[0] == "bin" and inner[1] == "BitAnd"):
         return False
@@ -348,8 +353,8 @@ def check_slot_capacity(ck, prog, rule):
             a = g.args(bb)
             if mentions(a[0], g.prov, lambda z: z[0] == "field" and z[2] == "entries"):
                 e = strip_casts(a[1])
-                idx_ok = shape_masked_shift(e, g.prov, "tail")
-        ck.ob(rule, "sqe-index=(tail&mask)<<shift", idx_ok, fn=g.path, detail="the slot index must be (tail & ring_mask) << shift")
+                idx_ok = shape_masked_shift(e, g.prov, "tail", flag="IORING_SETUP_SQE128")
+        ck.ob(rule, "sqe-index=(tail&mask)<<shift", idx_ok, fn=g.path, detail="the slot index must be (tail & ring_mask) << shift, the shift decided by IORING_SETUP_SQE128 alone")
 
 
 def check_cqe_index(ck, prog, rule):
@@ -362,5 +367,5 @@ def check_cqe_index(ck, prog, rule):
     for bb, t in c.cfg.calls(lambda t: (t.get("callee") or "").endswith("::add")):
         a = c.args(bb)
         if mentions(a[0], c.prov, lambda z: z[0] == "field" and z[2] == "entries"):
-            idx_ok = shape_masked_shift(strip_casts(a[1]), c.prov, None, loader="acquire_khead")
+            idx_ok = shape_masked_shift(strip_casts(a[1]), c.prov, None, loader="acquire_khead", flag="IORING_SETUP_CQE32")
     ck.ob(rule, "cqe-index=(head&mask)<<shift", idx_ok, fn=c.path, detail="the completion index must be (kernel_head & ring_mask) << shift: masking after the shift reads already-consumed slots on rings with 32-byte completions")
